@@ -28,7 +28,14 @@ pub const CT_SNAP: &str = "application/vnd.taskchampion.snapshot";
 pub const MAX_BODY: usize = 100 * 1024 * 1024;
 
 thread_local! {
-    static SYS: actix_rt::SystemRunner = actix_rt::System::new();
+    static SYS: actix_rt::SystemRunner = {
+        let s = actix_rt::System::new();
+        // The runtime's clock is the simulator's: paused, it moves only when every task of this
+        // runtime waits on a timer, and then jumps straight to the earliest one. Timers in handlers
+        // (upload idle timeouts and the like) therefore cost no real time and fire deterministically.
+        s.block_on(async { tokio::time::pause() });
+        s
+    };
 }
 
 pub fn block_on<F: Future>(f: F) -> F::Output {
@@ -196,6 +203,10 @@ struct BodyStream {
     /// which lets other requests of the same worker run (async interleaving at await points)
     pend: Option<crate::rng::Rng>,
     just_pended: bool,
+    /// a slow client: before chunk i (i = number of chunks: before the end of the body) nothing
+    /// arrives for this many simulated microseconds
+    stall: Option<(usize, i64)>,
+    sleeping: Option<Pin<Box<tokio::time::Sleep>>>,
 }
 
 impl Stream for BodyStream {
@@ -213,6 +224,22 @@ impl Stream for BodyStream {
             }
         }
         self.just_pended = false;
+        if let Some((at, us)) = self.stall {
+            if self.delivered >= at {
+                if self.sleeping.is_none() {
+                    self.sleeping = Some(Box::pin(tokio::time::sleep(std::time::Duration::from_micros(us.max(0) as u64))));
+                }
+                match self.sleeping.as_mut().unwrap().as_mut().poll(cx) {
+                    Poll::Pending => return Poll::Pending,
+                    Poll::Ready(()) => {
+                        self.sleeping = None;
+                        self.stall = None;
+                        // the simulated clock follows (and other simulated threads may run meanwhile)
+                        sched::sleep_us(us, Site::Chunk);
+                    }
+                }
+            }
+        }
         sched::point(Site::Chunk);
         if let Some(k) = self.fail_after {
             if self.delivered >= k {
@@ -247,6 +274,8 @@ pub struct WireReq {
     pub empties: Vec<usize>,
     /// seed of the "chunk not ready yet" pattern (None: every chunk is ready at once)
     pub pending_seed: Option<u64>,
+    /// slow client: (before chunk i, simulated microseconds without data)
+    pub stall: Option<(usize, i64)>,
 }
 
 impl WireReq {
@@ -267,6 +296,8 @@ impl WireReq {
             empties: self.empties,
             pend: self.pending_seed.map(crate::rng::Rng::new),
             just_pended: false,
+            stall: self.stall,
+            sleeping: None,
         };
         let boxed: Pin<Box<dyn Stream<Item = Result<Bytes, PayloadError>>>> = Box::pin(stream);
         let (req, _) = req.replace_payload(Payload::from(boxed));
@@ -287,6 +318,7 @@ pub fn wire_for(req: &Req, chunking: &Chunking) -> Option<WireReq> {
             fail_after: None,
             empties: vec![],
             pending_seed: None,
+            stall: None,
         },
         Req::GetChild { c, parent } => WireReq {
             method: "GET".into(),
@@ -296,6 +328,7 @@ pub fn wire_for(req: &Req, chunking: &Chunking) -> Option<WireReq> {
             fail_after: None,
             empties: vec![],
             pending_seed: None,
+            stall: None,
         },
         Req::AddSnapshot { c, v, data } => WireReq {
             method: "POST".into(),
@@ -305,6 +338,7 @@ pub fn wire_for(req: &Req, chunking: &Chunking) -> Option<WireReq> {
             fail_after: None,
             empties: vec![],
             pending_seed: None,
+            stall: None,
         },
         Req::GetSnapshot { c } => WireReq {
             method: "GET".into(),
@@ -314,6 +348,7 @@ pub fn wire_for(req: &Req, chunking: &Chunking) -> Option<WireReq> {
             fail_after: None,
             empties: vec![],
             pending_seed: None,
+            stall: None,
         },
     })
 }
